@@ -1187,6 +1187,7 @@ func analyseAsmDecoder(path string, minMatch int64, cs asmCase, coll *collector,
 	hc := &hullCtx{tab: tab, heads: map[int]*tmplHead{}}
 	hc.anchors = []Lin{p.g["dst_base"], p.g["dst_base"].Add(p.g["dst_len"]), p.g["src_base"], p.g["src_base"].Add(p.g["src_len"]), p.g["dict_base"], p.g["dict_base"].Add(p.g["dict_len"])}
 	hc.liveAt = func(b int) map[string]bool { return p.live[b] }
+	hc.localAnchors = true
 	for _, cns := range p.initial().st.cons {
 		if hc.onlyGlobal(cns) {
 			hc.globals = append(hc.globals, cns)
